@@ -265,6 +265,12 @@ def build_alphabet(lab, ents, root_of):
         st_search = "/".join(segs[:vi] + ["*", segs[vi + 1]])
         add("find_all_constants_level", {"f": "find", "finder": "all", "search": st_search, "as_set": True}, fs=True)
         add("find_all_constants_level_one", {"f": "find", "finder": "all", "search": st_search, "mode": "exists"}, fs=True)
+    # a list source the client appends to (a data change that is no file-system change)
+    live_new = "/".join(segs[:3] + ["appended"])
+    add("append_live", {"f": "append_live", "sid": live_new}, fs=True)
+    for i, sc in enumerate(["/".join(segs[:3]) + "/*", live_new, "/".join(segs[:2]) + "/*/a*", "/".join(segs[:3]) + "/>"]):
+        add("find_live:%d" % i, {"f": "find", "finder": "list_live", "search": sc}, fs=True)
+        add("exists_live:%d" % i, {"f": "find", "finder": "list_live", "search": sc, "mode": "exists"}, fs=True)
     add("find_created", {"f": "find", "finder": "paths:" + dflt, "search": "/".join(segs[:3] + ["created*"]), "as_set": True}, fs=True)
     add("find_created_all", {"f": "find", "finder": "all", "search": "/".join(segs[:3] + ["*"]), "as_set": True}, fs=True)
     add("filler", {"f": "filler", "n": 140, "prefix": "/".join(segs[:3]) + "/filler", "path_prefix": lab.trees.path_of(dflt, "/".join(segs[:3]))[0] + "/filler",
@@ -401,13 +407,15 @@ def worker(args):
         state_fresh = {(): fresh}
         affected = {}
         for c in calls:
-            if c["spec"]["f"] != "create":
+            if c["spec"]["f"] not in ("create", "append_live"):
                 continue
             srv.run([c["spec"]])
             fr_c = state_fresh.setdefault((c["name"],), {})
             for x in calls:
-                if x["fs"] and x["spec"]["f"] != "create":
-                    rr = srv.run([x["spec"]])
+                if x["fs"] and x["spec"]["f"] not in ("create", "append_live"):
+                    rr = srv.run([c["spec"], x["spec"]]) if c["spec"]["f"] == "append_live" else srv.run([x["spec"]])
+                    if c["spec"]["f"] == "append_live" and "_failed" not in rr:
+                        rr = {"results": rr["results"][1:]}
                     if "_failed" not in rr:
                         fr_c[x["name"]] = norm(rr["results"][0])
                         if fr_c[x["name"]] != fresh.get(x["name"]):
@@ -478,12 +486,15 @@ def judge_history(rec, srv, byname, seq, restore, norm, lab, state_fresh, case, 
     states = []
     for n in seq:
         states.append(tuple(sorted(created)))
-        if n.startswith("create:") and n not in created:
+        if (n.startswith("create:") or n == "append_live") and n not in created:
             created.append(n)
     restore()
     done_before = []
     for i, (n, res, stt) in enumerate(zip(seq, results, states)):
         c = byname[n]
+        if n == "append_live":
+            done_before.append(n)
+            continue
         if n.startswith("create:"):
             exp = "true" if n not in stt else None
             if exp and res != exp:
@@ -494,10 +505,12 @@ def judge_history(rec, srv, byname, seq, restore, norm, lab, state_fresh, case, 
         fr = state_fresh.setdefault(key, {})
         if n not in fr:
             # fresh child on that data state: replay the creates (real writer, in their own child), then ask
-            pre = [byname[x]["spec"] for x in key]
+            pre = [byname[x]["spec"] for x in key if x.startswith("create:")]
             if pre:
                 srv.run(pre)                 # the data change, in its own child
-            rr = srv.run([c["spec"]])        # the question, in a fresh child on that state
+            # (a change of the client's own list lives in the process: it is repeated in the fresh child that asks)
+            same = [byname[x]["spec"] for x in key if x == "append_live"]
+            rr = srv.run(same + [c["spec"]])        # the question, in a fresh child on that state
             restore()
             if "_failed" in rr:
                 rec.inconclusive.append("fresh-on-state failed for %s" % n)
